@@ -571,7 +571,17 @@ pub fn install_quiet_panic_hook() {
             .location()
             .map(|l| format!("{}:{}", l.file(), l.line()))
             .unwrap_or_default();
-        LAST_PANIC.with(|p| *p.borrow_mut() = Some(format!("{msg} @ {loc}")));
+        // keep the whole chain: the root cause is the first message, runtimes
+        // often re-panic with a generic one afterwards
+        LAST_PANIC.with(|p| {
+            let mut p = p.borrow_mut();
+            let cur = format!("{msg} @ {loc}");
+            *p = Some(match p.take() {
+                Some(prev) if prev.len() < 2000 => format!("{prev} <- {cur}"),
+                Some(prev) => prev,
+                None => cur,
+            });
+        });
         if std::env::var("VERIF_PANIC_TRACE").is_ok() {
             eprintln!("panic: {msg} @ {loc}");
         }
